@@ -8,6 +8,7 @@ package pkg
 import (
 	"reflect"
 	"time"
+	"unsafe"
 
 	verif "github.com/hyperjumptech/grule-rule-engine/zzverif"
 )
@@ -257,9 +258,39 @@ func VerifC19Bool() {
 // VerifC19Time: time.Time operands. wall/ext are symbolic under time's representation
 // invariant; loc ranges over {nil(UTC), &utcLoc-like, a fixed zone}. After/Before/Equal run
 // from the standard library's own SSA.
+type c19MonoInfo struct{ sec, nsec, mono int64 }
+
+var c19Mono = map[string]*c19MonoInfo{}
+
+// rawTime mirrors the layout of time.Time (wall, ext, loc).
+type c19RawTime struct {
+	wall uint64
+	ext  int64
+	loc  *time.Location
+}
+
+// c19WithMonotonic re-encodes t the way time.Now() does: hasMonotonic | seconds since 1885 << 30 | nanoseconds, ext = the
+// monotonic reading.
+func c19WithMonotonic(t time.Time, sec, nsec, mono int64) time.Time {
+	const wallToUnix = 2682374400 // seconds from 1885-01-01 to 1970-01-01
+	r := (*c19RawTime)(unsafe.Pointer(&t))
+	r.wall = 1<<63 | uint64(sec+wallToUnix)<<30 | uint64(nsec)
+	r.ext = mono
+	return t
+}
+
 func VerifC19Time() {
+	c19Mono = map[string]*c19MonoInfo{}
 	a := c19Time("L")
 	b := c19Time("R")
+	if l, r := c19Mono["L"], c19Mono["R"]; l != nil && r != nil {
+		// two readings of one process: the monotonic difference is the wall-clock difference (same second, to keep the
+		// arithmetic linear)
+		verif.Assume(verif.And(l.sec == r.sec, l.mono-r.mono == l.nsec-r.nsec))
+		verif.Reach("C19:time:both-monotonic")
+	} else if l != nil || r != nil {
+		verif.Reach("C19:time:one-monotonic")
+	}
 	l, r := reflect.ValueOf(a), reflect.ValueOf(b)
 	verif.Reach("C19:time")
 	s := c19Eval("time", l, r)
@@ -281,6 +312,14 @@ func c19Time(side string) time.Time {
 	verif.Assume(verif.And(sec > -9000000000, sec < 9000000000))
 	verif.Assume(verif.And(nsec >= 0, nsec < 1000000000))
 	t := time.Unix(sec, nsec)
+	if verif.Choice(side+".monotonic", 2) == 1 {
+		// a value as time.Now() returns it: wall clock AND monotonic reading (encodable for 1885..2157 only)
+		verif.Assume(verif.And(sec > -2000000000, sec < 5000000000))
+		mono := verif.Int64(side + ".mono")
+		verif.Assume(verif.And(mono > 0, mono < 1000000000000000))
+		t = c19WithMonotonic(t, sec, nsec, mono)
+		c19Mono[side] = &c19MonoInfo{sec: sec, nsec: nsec, mono: mono}
+	}
 	switch verif.Choice(side+".loc", 3) {
 	case 0:
 		return t.UTC()
